@@ -1,15 +1,15 @@
 SPECIFICATION FSpec
 CONSTANTS
   W = 2
-  NK = 5
+  NK = 7
   Poss = {0}
-  Tags = {0, 1}
-  OpNames = {"insert", "remove", "reserve", "shrink_to_fit"}
+  Tags = {0}
+  OpNames = {"insert", "remove"}
   Vals = {1}
   KIds = {1}
   Es = 8
   MaxB = 32
-  MaxPa = 4
-  TRem = {}
+  MaxPa = 2
+  TRem = {5}
 INVARIANTS Inv Refines LookupOK ChkOK CapacityOK
 CHECK_DEADLOCK FALSE
